@@ -770,6 +770,11 @@ def _op_sites(repo, m, cls, fn) -> List[ast.Call]:
         # type and an expression; every expression is callable).  The one documented use is the cache factory of a dataset.
         if isinstance(f0, ast.Name) and f0.id in all_params and not c.args and not c.keywords \
                 and not (cls is not None and (cls.name, fn.name) in CACHE_FACTORY_CALLS):
+            # (… also where the parameter is declared as that: ``spec: Union[Cache[A], Callable[..., Cache[A]], None]``)
+            ann_ = next((a.annotation for a in fn.args.posonlyargs + fn.args.args + fn.args.kwonlyargs if a.arg == f0.id), None)
+            ann_txt = (ann_.value if isinstance(ann_, ast.Constant) and isinstance(ann_.value, str) else ast.unparse(ann_)) if ann_ is not None else ""
+            if "Callable" in ann_txt and "Cache" in ann_txt and "Evaluatable" not in ann_txt:
+                continue
             out.append(c)
     return out
 
